@@ -88,6 +88,8 @@ def tasks(tier, pid):
                 t.append(('recipe_method', m, v, False))
         t.append(('syntactic',))
     t += unit_contract_tasks(tier, pid)
+    from contracts import rounding_placement as RP
+    t += [('rounding_placement',) + x for x in RP.tasks(tier, pid)]
     t.append(('canaries',))
     return t
 
@@ -117,6 +119,9 @@ def run_unit_contract(pid, *args):
 def run(pid, kind, *args):
     if kind == 'unit_contract':
         return run_unit_contract(pid, *args)
+    if kind == 'rounding_placement':
+        from contracts import rounding_placement as RP
+        return RP.run(pid, *args)
     if kind == 'transfer':
         return CT.run_case(pid, *args)
     if kind == 'op':
